@@ -314,7 +314,13 @@ static RunResult run_writer(const Plan& p, bool explicit_close, long rlimit, boo
     return r;
 }
 
+static void encoder_failure(Src& s);
+
 static void prop(Src& s) {
+    if (s.chance(1, 400)) {
+        encoder_failure(s);
+        return;
+    }
     Plan p;
     p.fmt = static_cast<int>(s.draw(3));
     p.comp = p.fmt == 0 ? 0 : static_cast<int>(s.weighted({2, 2, 2}));
@@ -477,10 +483,91 @@ VP_BUILTIN(F30_gzip_write_error_then_close) {
     }
 }
 
+// ---------------------------------------------------------------- a failure in the encoder (in a pool worker): an object that cannot be written
+// One relation whose tags alone need more than the 32 MiB a PBF block may have: no block can hold it. Whatever the Writer does, it must
+// not report success for a file that lacks the object, and its threads must finish. (XML and OPL have no such limit and must write it.)
+static void encoder_failure(Src& s) {
+    Plan p;
+    p.fmt = static_cast<int>(s.weighted({3, 1, 1}));
+    p.comp = 0;
+    p.sync = false;
+    p.handover = static_cast<int>(s.draw(4));
+    p.tail = static_cast<int>(s.weighted({4, 2, 2, 0}));
+    auto small = [](int type, int64_t id) {
+        Obj x;
+        x.type = type;
+        x.id = id;
+        x.version = 1;
+        if (type == model::NODE) x.loc = model::Loc{1, 2};
+        return x;
+    };
+    const size_t before = s.draw(3), after = s.draw(3);
+    for (size_t i = 0; i < before; ++i) p.data.push_back(small(model::RELATION, static_cast<int64_t>(i + 1)));
+    {
+        Obj big = small(model::RELATION, 100);
+        const size_t ntags = 34000 + s.draw(2000);
+        vp::Rng r{s.draw(1ULL << 32)};
+        for (size_t i = 0; i < ntags; ++i) {
+            std::string v(1000, 'v');
+            for (size_t k = 0; k < 16; ++k) v[k] = static_cast<char>('a' + r.below(26));  // all values differ: the string table cannot share them
+            big.tags.push_back(model::Tag{"k" + std::to_string(i), std::move(v)});
+        }
+        p.data.push_back(std::move(big));
+    }
+    for (size_t i = 0; i < after; ++i) p.data.push_back(small(model::RELATION, static_cast<int64_t>(200 + i)));
+    const std::string what = p.format_string() + " handover=" + std::to_string(p.handover) + " tail=" + std::to_string(p.tail) + ": " + std::to_string(before) + " small relations, one relation with " +
+                             std::to_string(p.data[before].tags.size()) + " tags of 1000 bytes, " + std::to_string(after) + " small relations";
+    if (vp::want_desc()) vp::describe("encoder failure: " + what);
+    reset_interposer();
+    (void)osmium::thread::Pool::default_instance();
+    const int threads_before = perturb::thread_count();
+    RunResult r = run_writer(p, true, -1);
+    {
+        int t = perturb::thread_count();
+        for (int i = 0; i < 200 && t > threads_before; ++i) {
+            std::this_thread::sleep_for(std::chrono::milliseconds(2));
+            t = perturb::thread_count();
+        }
+        VP_CHECK(t <= threads_before, "thread-leak", "threads after the Writer was destroyed: " << t << ", before: " << threads_before << " | " << what);
+    }
+    if (r.threw) {
+        VP_CHECK(r.refused_after_error, "writer-accepts-data-after-error", "the Writer accepted more data after it had reported an error (" << r.where << ": " << r.what << ") | " << what);
+        vp::count("encoder_failure_reported_by_" + r.where);
+        vp::count(std::string{"encoder_failure_"} + (p.fmt == 0 ? "pbf" : p.fmt == 1 ? "xml" : "opl") + "_message: " + r.what.substr(0, 60));
+    } else {
+        // success was reported: then the file must hold everything
+        size_t n = 0, big_tags = 0;
+        try {
+            osmium::io::Reader reader{osmium::io::File{r.file.data(), r.file.size(), p.format_string()}};
+            while (osmium::memory::Buffer b = reader.read()) {
+                for (const auto& rel : b.select<osmium::Relation>()) {
+                    ++n;
+                    if (rel.id() == 100) big_tags = rel.tags().size();
+                }
+            }
+            reader.close();
+        } catch (const std::exception& e) {
+            vp::fail("short-or-corrupt-file-reported-as-success", std::string{"close() returned without exception but the file cannot be read back: "} + e.what() + " | " + what);
+        }
+        VP_CHECK(n == p.data.size() && big_tags == p.data[before].tags.size(), "short-or-corrupt-file-reported-as-success",
+                 "close() returned without exception but the file holds " << n << " of " << p.data.size() << " relations (the large one with " << big_tags << " tags) | " << what);
+        vp::count("unencodable_object_written_completely");
+    }
+    vp::count(std::string{"encoder_failure_fmt_"} + (p.fmt == 0 ? "pbf" : p.fmt == 1 ? "xml" : "opl"));
+    vp::nontrivial(vp::hash_str(what));
+}
+
+VP_BUILTIN(encoder_failure_object_larger_than_a_pbf_block) {
+    for (uint64_t seed : {1, 2, 3, 4}) {
+        vp::Src s{seed};
+        encoder_failure(s);
+    }
+}
+
 VP_MAIN(prop, "write scenarios: generated data (0..30 objects, sometimes 200..1700 so that the output needs many writes) x format {pbf, xml, opl} x compression {none, gzip, bzip2} x fsync x hand-over mode, "
               "first written fault-free (reference bytes, read back with the Reader), then again under one fault: the first write crossing byte offset o fails with ENOSPC/EIO, optionally after a "
               "short write (o uniform over the file, near the start, near the end, at/after the end); for bzip2 a kernel file size limit at o (EFBIG); EINTR k times; short writes throughout; "
-              "fsync fails; the n-th close of the output file fails; consumer calls close() or only destroys the Writer. Mechanism: write/fsync/close defined in the harness executable (libosmium "
+              "fsync fails; the n-th close of the output file fails, or the close system call itself (seccomp); consumer calls close(), flush()+close(), close() twice, data after close(), or only destroys the Writer; one case in 400: an object no PBF block can hold (encoder failure in a pool worker). Mechanism: write/fsync/close defined in the harness executable (libosmium "
               "inline code and libz call them), RLIMIT_FSIZE for libbz2/stdio. Oracle: fault fired => some Writer call threw, and afterwards the Writer refuses data; no exception => bytes on "
               "disk identical to the reference and close() == file size; EINTR/short writes => no error; threads back to baseline; watchdog. non-trivial = fault fired strictly inside the file "
               "or in fsync/close; distinct by scenario")
